@@ -115,9 +115,19 @@ func (t Type) pair() (Type, Type) {
 	return (t >> typeShift) & typeMask, (t >> (typeShift * 2))
 }
 
+// isSafeStr reports whether a value of this type is rendered in full when it
+// is nested inside another container: scalars, and slices and maps whose
+// declared element types bottom out in scalars (such containers cannot be
+// part of a cycle). Struct references and containers of any are cut short.
 func (t Type) isSafeStr() bool {
 	switch t.base() {
-	case TypeSlice, TypeMap, TypeStruct:
+	case TypeSlice:
+		e := t.value()
+		return e != TypeNil && e.isSafeStr()
+	case TypeMap:
+		_, e := t.pair()
+		return e != TypeNil && e.isSafeStr()
+	case TypeStruct:
 		return false
 	}
 	return true
